@@ -45,6 +45,7 @@ type Prog struct {
 	astFn    map[*types.Func]*ast.FuncDecl
 	sites    map[*ssa.Function][]ssa.CallInstruction
 	made     map[string]bool
+	live     map[*ssa.Function]map[*ssa.BasicBlock]bool
 }
 
 // Load loads every package of the module in dir under cfg and builds SSA.
